@@ -10,7 +10,7 @@ EXPLANATION = (
     'the two assemble() calls of main(), symbols.lock(), symbols.scope_reset(), pass = 2 and init() are executed. '
     'ADD-SYM: the pass-1 skip branch of add_bin8/16/32 advances the address by exactly the bytes the write branches emit. '
     'R-PASS: no encoding-relevant state written in pass 1 survives into pass 2. SYM-LOCK: Symbols::append is a no-op '
-    'returning success once the table is locked, and nothing unlocks it. MEMO-GOV: a value test that governs a pass-1 memo '
+    'returning success once the table is locked, and nothing unlocks it. DEFAULT-CPU: init() selects the default CPU through set_cpu(), so a source without CPU directive gets the complete cpu_list[] settings of msp430 (pass_1_write_disable for its memo) and cpu_list_index is never negative. MEMO-GOV: a value test that governs a pass-1 memo '
     'write governs in pass 2 only statements that consult the memo. MEMO-PAIR: a memo that is written is read. MEMO-SURVIVES: '
     'CPUs whose assembler writes the memo have pass_1_write_disable set (else add_bin overwrites it in pass 1). MEMO-ADDR: '
     'no memo access follows an emission of the same instruction (the address has moved). PASS-FLAG: no emission-controlling '
@@ -59,7 +59,7 @@ def symlock(prog):
 def run(tier, t0):
     prog = common.program()
     cg = common.callgraph()
-    results = [passes.interpass(prog), passes.addsym(prog), passes.rpass(prog, cg), symlock(prog),
+    results = [passes.interpass(prog), passes.addsym(prog), passes.rpass(prog, cg), passes.default_cpu(prog, cg), symlock(prog),
                passsize.memo_gov(prog), passsize.memo_pair(prog), passsize.memo_survives(prog, cg), passsize.memo_addr(prog),
                passsize.pass_flag(prog), passsize.pass_size(prog)]
     return report.finish('C02', tier, results, EXPLANATION, [], common.TRUSTED, t0)
